@@ -12,7 +12,131 @@ From Coq Require Import List NArith ZArith Bool Permutation Sorted String.
 Import ListNotations.
 Require Import RV.Lib.PyStr RV.Model.ContentLine RV.Model.Vobj RV.Model.C14Spec RV.Model.Export RV.Model.Split.
 Require Import RV.Proofs.ExportProofs RV.Proofs.SplitProofs RV.Proofs.RegroupProofs RV.Proofs.UnfixedProofs.
+Require RV.Proofs.LinesProofs RV.Proofs.QpProofs RV.Proofs.TextProofs RV.Proofs.CleanupProofs RV.Proofs.TreeProofs RV.Proofs.C14Final.
 Open Scope N_scope.
+
+(* ---------------------------------------------------------------------------------------------------------------
+   C14_lines.  (model of vobject)  Printing content lines -- parameters sorted, values quoted when they hold , ; : --
+   folding them at 75 octets and reading the text back with the storage reader (vobject.readOne: unfold, split name /
+   parameters / value) gives the same lines, for EVERY list of well-formed lines: any length, any code points. *)
+Theorem C14_lines : forall ls, Forall wf_cl ls -> parse_lines (print_lines ls) = Some ls.
+Proof. exact LinesProofs.lines_roundtrip. Qed.
+Print Assumptions C14_lines.
+
+(* not vacuous: a line with a group, a quoted two-valued parameter and a folded multi-byte value is well-formed *)
+Theorem C14_lines_nonvacuous : exists l, wf_cl l /\ cl_params l <> [] /\ (75 < N.of_nat (List.length (print_cl l))).
+Proof. exact LinesProofs.wf_cl_example. Qed.
+Print Assumptions C14_lines_nonvacuous.
+
+(* The same through the reader Radicale uses for uploads (vobject.readComponents(allowQP=True)).
+   FULL STATEMENT, not provable -- refuted below:
+     Definition C14_lines_qp_full := forall ls, Forall wf_cl ls -> parse_lines_qp (print_lines ls) = Some ls.
+   Proved outside the known class C14:fold-ws (no physical line made of white space only) and for lines that do not
+   mention quoted-printable (vCard 2.1 soft line breaks are outside the model). *)
+Theorem C14_lines_qp_outside_known : forall ls,
+  Forall wf_cl ls ->
+  Forall (fun l => mentions_qp (print_cl l) = false) ls ->
+  no_ws_only_lines (print_lines ls) ->
+  parse_lines_qp (print_lines ls) = Some ls.
+Proof. exact C14Final.lines_roundtrip_qp. Qed.
+Print Assumptions C14_lines_qp_outside_known.
+
+(* witness: SUMMARY-like line "S:" + 73 x + one space (76 characters): the fold leaves the line "  " *)
+Theorem C14_lines_qp_refuted :
+  wf_cl C14Final.ws_line /\ mentions_qp (print_cl C14Final.ws_line) = false /\
+  parse_lines (print_lines [C14Final.ws_line]) = Some [C14Final.ws_line] /\
+  parse_lines_qp (print_lines [C14Final.ws_line]) <> Some [C14Final.ws_line] /\
+  ~ no_ws_only_lines (print_lines [C14Final.ws_line]).
+Proof. exact C14Final.lines_roundtrip_qp_refuted. Qed.
+Print Assumptions C14_lines_qp_refuted.
+
+(* ---------------------------------------------------------------------------------------------------------------
+   TEXT values (model of vobject's TextBehavior / backslashEscape / stringToTextValues). *)
+(* decoding undoes encoding for every text (a CR or CRLF comes back as LF: all three are written as \n) *)
+Theorem C14_text_roundtrip : forall v, text_decode (text_encode v) = TextProofs.nl_norm v.
+Proof. exact TextProofs.text_decode_encode_gen. Qed.
+Print Assumptions C14_text_roundtrip.
+Theorem C14_text_roundtrip_exact : forall v, no_cr v -> text_decode (text_encode v) = v.
+Proof. exact TextProofs.text_decode_encode. Qed.
+Print Assumptions C14_text_roundtrip_exact.
+(* what is stored is stable: parse-then-serialise is idempotent on EVERY raw value *)
+Theorem C14_text_canon_idempotent : forall raw, text_canon (text_canon raw) = text_canon raw.
+Proof. exact TextProofs.text_canon_idem. Qed.
+Print Assumptions C14_text_canon_idempotent.
+(* a raw value made of plain characters and the escapes \\ \; \, \n is returned unchanged *)
+Theorem C14_text_unchanged : forall raw, TextProofs.escaped_ok raw -> text_canon raw = raw.
+Proof. exact TextProofs.text_canon_id. Qed.
+Print Assumptions C14_text_unchanged.
+(* FULL STATEMENT `forall raw, text_canon raw = raw` is refuted: known class C14:text-comma ("geo:1,2" -> "geo:1") *)
+Theorem C14_text_comma_refuted : exists raw, text_canon raw <> raw /\ text_decode raw <> raw /\ (List.length (text_canon raw) < List.length raw)%nat.
+Proof. exact TextProofs.text_comma_refuted. Qed.
+Print Assumptions C14_text_comma_refuted.
+(* multi-valued TEXT (CATEGORIES, RESOURCES, REQUEST-STATUS): stable exactly when the last value is not an empty one
+   after a separator ("a,," loses one trailing comma per round) *)
+Theorem C14_multitext_canon_idempotent : forall sep raw, (sep = COMMA \/ sep = SEMI) ->
+  (multitext_canon sep (multitext_canon sep raw) = multitext_canon sep raw <-> TextProofs.mt_stable (text_values sep raw)).
+Proof. exact TextProofs.multitext_canon_idem_iff. Qed.
+Print Assumptions C14_multitext_canon_idempotent.
+
+(* ---------------------------------------------------------------------------------------------------------------
+   C14_cleanups_idempotent.  Radicale's documented clean-ups. *)
+Theorem C14_cleanup_controls : forall s,
+  strip_ctrl (strip_ctrl s) = strip_ctrl s /\ Forall (fun c => is_ctrl c = false) (strip_ctrl s) /\
+  (Forall (fun c => is_ctrl c = false) s -> strip_ctrl s = s).
+Proof. intros s. split; [apply CleanupProofs.strip_ctrl_idem|]. split; [apply CleanupProofs.strip_ctrl_clean|apply CleanupProofs.strip_ctrl_none]. Qed.
+Print Assumptions C14_cleanup_controls.
+
+(* zero DURATION next to DTEND, EXDATE/RDATE value type: cleaning a cleaned object changes nothing.  The side
+   condition excludes one malformed input (DTSTART;VALUE=DATE-TIME with a DATE value), for which vobject rewrites
+   the VALUE parameter on output -- outside the model; without it the statement is refuted (second theorem). *)
+Theorem C14_cleanups_idempotent : forall x y, CleanupProofs.dtstart_consistent x = true -> sanitize x = Some y -> sanitize y = Some y.
+Proof. exact CleanupProofs.sanitize_idem. Qed.
+Print Assumptions C14_cleanups_idempotent.
+Theorem C14_cleanups_idempotent_side_condition_needed :
+  exists x y, CleanupProofs.dtstart_consistent x = false /\ sanitize x = Some y /\ sanitize y = None.
+Proof. exact CleanupProofs.sanitize_idem_refuted_without_condition. Qed.
+Print Assumptions C14_cleanups_idempotent_side_condition_needed.
+(* the clean-ups change nothing outside the documented cases *)
+Theorem C14_cleanups_only_documented : forall x y, sanitize x = Some y -> nothing_to_clean x = true -> y = x.
+Proof. exact CleanupProofs.sanitize_only_documented. Qed.
+Print Assumptions C14_cleanups_only_documented.
+Theorem C14_cleanups_nonvacuous :
+  (exists x y, sanitize x = Some y /\ y <> x) /\ (exists x, nothing_to_clean x = true /\ sanitize x = Some x /\ x <> L (mkCl None [] [] [])).
+Proof. split; [exact CleanupProofs.sanitize_changes_something | exact CleanupProofs.sanitize_accepts_clean]. Qed.
+Print Assumptions C14_cleanups_nonvacuous.
+
+(* ---------------------------------------------------------------------------------------------------------------
+   C14_fixed_point (line level).  The stored text of ANY list of well-formed lines is a fixed point of
+   read-then-write: through the storage reader always; through the upload reader outside the known class. *)
+Theorem C14_fixed_point_lines : forall ls, Forall wf_cl ls ->
+  let t := print_lines ls in
+  (exists ls', parse_lines t = Some ls' /\ print_lines ls' = t) /\
+  (Forall (fun l => mentions_qp (print_cl l) = false) ls -> no_ws_only_lines t ->
+   exists ls', parse_lines_qp t = Some ls' /\ print_lines ls' = t).
+Proof. exact C14Final.stored_text_fixed_point. Qed.
+Print Assumptions C14_fixed_point_lines.
+
+(* reading a serialised tree back gives the tree (BEGIN/END nesting) *)
+Theorem C14_tree_roundtrip : forall xs,
+  Forall (fun x => exists n ch, x = C n ch /\ TreeProofs.wf_node x) xs -> build (flatten_all xs) = Some xs.
+Proof. exact TreeProofs.build_flatten. Qed.
+Print Assumptions C14_tree_roundtrip.
+
+(* ---------------------------------------------------------------------------------------------------------------
+   C14_served_is_stored.  In the model the Item served by GET / REPORT / export carries the text of the cache entry
+   written at upload, which is the uploaded item's own serialisation (definitional; the monitors compare the three
+   channels on the real server); after the loss of the cache entry it is recomputed and equals the stored text exactly
+   when that text is a fixed point of the upload pipeline. *)
+Theorem C14_served_is_stored : forall text,
+  C14Final.get_body (C14Final.upload_store text) = Some text /\
+  C14Final.report_data (C14Final.upload_store text) = Some text /\
+  C14Final.export_piece (C14Final.upload_store text) = Some text.
+Proof. exact C14Final.served_is_stored. Qed.
+Print Assumptions C14_served_is_stored.
+Theorem C14_served_after_cache_loss : forall text,
+  put_model text = Some text -> C14Final.served_text (C14Final.mkStored text None) = Some text.
+Proof. exact C14Final.served_after_cache_loss. Qed.
+Print Assumptions C14_served_after_cache_loss.
 
 (* ---------------------------------------------------------------------------------------------------------------
    C14_export.  The whole-collection export (BaseCollection.serialize), for EVERY list of stored objects of the
